@@ -14,10 +14,27 @@
     That is false of the code when a clause is empty (both parsers drop the
     line [0]): [C27_parse_print_empty_clause_refuted]; the guarded statement is
     [C27_parse_print]; [C27_parse_print_general] says what is recovered in
-    general (the non-empty clauses, in reversed order). *)
+    general (the non-empty clauses, in reversed order).
+
+    CHARACTER level (the [..._chars] theorems at the end): Text/Chars.v models
+    [str(int)], [int(str)], [str.split()], [str.strip()], [' '.join],
+    [split('\n')], [replace('\n', x, 1)] on ASCII strings; Text/TextChars.v
+    writes the TEXT of each writer character by character as the Python code
+    does (compared byte for byte with the real files by the harness), and reads
+    a text by cutting it into lines and words and classifying the words
+    ([lex_file]) before the token-level parser runs.  [C27_chars_layer] are the
+    round trips of the primitives, [C27_text_lexes_to_tokens] says that the
+    written text IS the token file of the token-level model, and the
+    [_chars] theorems are the token-level statements about the text.  What
+    stays trusted at this level: the texts are ASCII, CPython's [str(int)] /
+    [int(str)] / [split] behave as modelled (Text/Chars.v states the accepted
+    strings exactly), and the readers see canonical decimals and single blanks
+    after ["c"] / ["p"] (true of every text the writers produce, by
+    [C27_text_lexes_to_tokens]). *)
 From Coq Require Import String Ascii ZArith List Bool Lia Permutation.
 From SP Require Import Base.Sat Text.Tok Text.TokProofs Text.Dimacs Text.SolverIO.
 From SP Require Import Text.DimacsProofs Text.SolverIOProofs Text.TextTheorems.
+From SP Require Import Text.Chars Text.CharsProofs Text.TextChars Text.TextCharsProofs Text.TextCharsTheorems.
 Import ListNotations.
 Open Scope Z_scope.
 
@@ -164,6 +181,100 @@ Theorem C27_update_file_empty_solution_refuted :
 Proof. exact update_file_empty_solution_refuted. Qed.
 Print Assumptions C27_update_file_empty_solution_refuted.
 
+(** * Character level *)
+
+(** [int(str(z)) = z]; [str(z)] is one word without blank or newline;
+    [' '.join(toks).split() = toks] for words; tokenising the printed line of
+    a clause gives back its tokens, and [int] of those the literals and the 0. *)
+Theorem C27_chars_layer :
+  (forall z, Z_of_string (string_of_Z z) = Some z) /\
+  (forall z, is_word_s (string_of_Z z) = true /\ no_nl (string_of_Z z) = true) /\
+  (forall toks, words toks -> split_ws (join sp toks) = toks) /\
+  (forall c : list Z,
+     split_ws (join sp (map string_of_Z c) +s+ sp +s+ string_of_Z 0) = map string_of_Z (c ++ [0]) /\
+     map_opt_s Z_of_string (split_ws (join sp (map string_of_Z c) +s+ sp +s+ string_of_Z 0)) = Some (c ++ [0])).
+Proof. exact chars_layer. Qed.
+Print Assumptions C27_chars_layer.
+
+(** The text of every writer, cut into lines ([split('\n')]) and words
+    ([split()]), is exactly the token file of the token-level model - for every
+    clause list, empty clauses (written [" 0"]) included. *)
+Theorem C27_text_lexes_to_tokens :
+  (forall cls support, lex_file (save_cnf_text cls support) = save_cnf_lines cls support) /\
+  (forall nv ss cls, lex_file (unigen_text nv ss cls) = unigen_lines nv ss cls) /\
+  (forall nv cls, lex_file (dimacs_text nv cls) = dimacs_lines nv cls) /\
+  (forall cls, lex_file (str_text cls) = str_lines cls ++ [[]]) /\
+  (forall bs, lex_file (cms_output_text bs) = cms_output bs).
+Proof. exact text_lexes_to_tokens. Qed.
+Print Assumptions C27_text_lexes_to_tokens.
+
+(** [C27_parse_print] about the TEXT: parsing the characters written by
+    [save_cnf] recovers the clauses, the variable count and the sampling set. *)
+Theorem C27_parse_print_chars : forall (cls : cnf) n,
+  (forall c, In c cls -> nonzero c) -> no_empty_clause cls ->
+  parse_cms_text (save_cnf_text cls (Some n)) = Some (cnf_num_vars cls, rev cls) /\
+  parse_unigen_text (save_cnf_text cls (Some n)) = Some (rev cls, support_set n, cnf_num_vars cls) /\
+  Permutation (rev cls) cls.
+Proof. exact parse_print_chars. Qed.
+Print Assumptions C27_parse_print_chars.
+
+Theorem C27_parse_print_general_chars : forall nv ss (cls : cnf),
+  nonzero ss -> (forall c, In c cls -> nonzero c) ->
+  parse_cms_text (unigen_text nv ss cls) = Some (nv, nonempty_clauses (rev cls)) /\
+  parse_unigen_text (unigen_text nv ss cls) = Some (nonempty_clauses (rev cls), sort_uniq ss, nv) /\
+  parse_cms_text (dimacs_text nv cls) = Some (nv, nonempty_clauses (rev cls)).
+Proof. exact parse_print_general_chars. Qed.
+Print Assumptions C27_parse_print_general_chars.
+
+(** The empty clause at character level: its line is [" 0"] (a blank and the
+    terminator), which both parsers skip. *)
+Theorem C27_parse_print_empty_clause_chars_refuted :
+  exists cls s cs,
+    lines (save_cnf_text cls (Some 1))
+    = ["p cnf 1 2"; "c ind 1 0"; " 0"; "1 0"; ""]%string /\
+    sat s cls = false /\
+    parse_cms_text (save_cnf_text cls (Some 1)) = Some (cnf_num_vars cls, cs) /\
+    parse_unigen_text (save_cnf_text cls (Some 1)) = Some (cs, [1], cnf_num_vars cls) /\
+    sat s cs = true /\ ~ Permutation cs cls.
+Proof. exact parse_print_empty_clause_chars_refuted. Qed.
+Print Assumptions C27_parse_print_empty_clause_chars_refuted.
+
+(** The text is the plain rendering of the token file (one blank between
+    tokens) except for the empty clause, where the writer's line begins with a
+    blank; the tokens are the same. *)
+Theorem C27_render_empty_clause_refuted :
+  render_line (clause_line []) <> clause_text [] /\ lex_line (clause_text []) = clause_line [].
+Proof. exact render_empty_clause_refuted. Qed.
+Print Assumptions C27_render_empty_clause_refuted.
+
+Theorem C27_sampling_set_chars : forall solve (cls : cnf) n,
+  (forall c, In c cls -> nonzero c) -> no_empty_clause cls -> cls <> [] -> 1 <= n ->
+  (solve (rev cls) = true ->
+   sampler_input_text solve (save_cnf_text cls (Some n)) = Some (Some (rev cls, support_set n))) /\
+  (solve (rev cls) = false ->
+   sampler_input_text solve (save_cnf_text cls (Some n)) = Some None).
+Proof. exact sampling_set_chars. Qed.
+Print Assumptions C27_sampling_set_chars.
+
+(** The first line of the file, as characters and as words. *)
+Theorem C27_header_vars_chars : forall (cls : cnf) support,
+  hd EmptyString (lines (save_cnf_text cls support))
+  = "p cnf " +s+ string_of_Z (cnf_num_vars cls) +s+ sp +s+ string_of_Z (Z.of_nat (length cls)) /\
+  split_ws (hd EmptyString (lines (save_cnf_text cls support)))
+  = ["p"%string; "cnf"%string; string_of_Z (cnf_num_vars cls); string_of_Z (Z.of_nat (length cls))] /\
+  (forall c l, In c cls -> In l c -> Z.abs l <= cnf_num_vars cls) /\
+  (0 < cnf_num_vars cls -> exists c l, In c cls /\ In l c /\ Z.abs l = cnf_num_vars cls).
+Proof. exact header_vars_chars. Qed.
+Print Assumptions C27_header_vars_chars.
+
+Theorem C27_solver_output_roundtrip_chars : forall bs support,
+  0 <= support <= Z.of_nat (length bs) ->
+  parse_v_text (cms_output_text bs) = Some (lits_of bs ++ [0]) /\
+  solve_result_text (cms_output_text bs) support = Some (lits_of (firstn (Z.to_nat support) bs)) /\
+  (forall s, forallb (lit_true s) (lits_of bs) = true <-> asg_matches s 1 bs).
+Proof. exact solver_output_roundtrip_chars. Qed.
+Print Assumptions C27_solver_output_roundtrip_chars.
+
 (** The hypotheses are satisfiable by non-trivial objects. *)
 Example C27_instance_parse_print :
   let cls := [[1; -2]; [3]; [-1; 2; 4]] in
@@ -194,3 +305,16 @@ Example C27_instance_solver_output :
   = [ [TW "s"; TW "SATISFIABLE"]; [TW "v"; TI 1; TI (-2); TI 3; TI 0]; [] ] /\
   solve_result (cms_output [true; false; true]) 2 = Some [1; -2].
 Proof. split; [cbn; lia|]. split; vm_compute; reflexivity. Qed.
+
+Example C27_instance_chars :
+  let cls := [[1; -2]; [3]; [-1; 2; 4]] in
+  save_cnf_text cls (Some 12)
+  = ("p cnf 4 3" +s+ nl_s +s+ "c ind 1 2 3 4 5 6 7 8 9 10 0" +s+ nl_s +s+ "c ind 11 12 0" +s+ nl_s
+     +s+ "-1 2 4 0" +s+ nl_s +s+ "3 0" +s+ nl_s +s+ "1 -2 0" +s+ nl_s)%string /\
+  cms_output_text [true; false; true] = ("s SATISFIABLE" +s+ nl_s +s+ "v 1 -2 3 0" +s+ nl_s)%string /\
+  update_file_text (save_cnf_text [[1; -2]; [2; 3]] (Some 2)) [1; -2]
+  = Some ("p cnf 3 3" +s+ nl_s +s+ "c ind 1 2 0" +s+ nl_s +s+ "2 3 0" +s+ nl_s +s+ "1 -2 0" +s+ nl_s
+          +s+ "-1 2 0")%string /\
+  map Z_of_string ["12"; "-7"; "007"; "+5"; "1_0"; " 3 "; "-"; "1__0"; "x"]%string
+  = [Some 12; Some (-7); Some 7; Some 5; Some 10; Some 3; None; None; None].
+Proof. cbv zeta. repeat split; vm_compute; reflexivity. Qed.
